@@ -57,3 +57,49 @@ Theorem C08_cascade :
     step cf d (RpDelete u) = (d', rs) -> is_success rs -> ~ mentions d' u.
 Proof. exact c08_cascade. Qed.
 Print Assumptions C08_cascade.
+
+(* ---------------------------------------------------------------------------------------------------------------
+   Under interleaving (Model/ConcAll.v: every request as its sequence of top-level transactions - provider create /
+   update / delete, class and trait create / put / rename / delete, PUT aggregates, PUT provider traits with its look-up
+   and the re-check of fix 6eda2e3, the allocation writes and guarded provider writes of Model/Conc.v, the reshaper with
+   the per-request resource class cache).  The property itself quantifies over request sequences; these theorems say what
+   survives when requests overlap (DESIGN.md section 12). *)
+From PV Require Import Model.ConcAll Proofs.C08c.
+
+(* a class / trait request run alone is the sequential handler *)
+Theorem C08_thread_alone_is_handler : forall cf d r k, is_ct_req r -> (2 <= k)%nat ->
+  a_run_thread cf k (ainit cf r) d = (ADone (snd (step cf d r)), fst (step cf d r)).
+Proof. exact a_serial. Qed.
+Print Assumptions C08_thread_alone_is_handler.
+
+(* ANY number of concurrent requests of ANY kind, ANY schedule: nothing dangles - provided no request set contains both a
+   reshape that clears a consumer and a DELETE of a resource class (the recorded finding: the reshaper's write resolves the
+   class name from the cache an earlier transaction of the same request filled) *)
+Theorem C08_ri_all_schedules_partial : forall cf reqs s d, RI d -> Forall (fun r => req_wf r = true) reqs ->
+  no_reshape_class_delete_race reqs ->
+  RI (snd (a_run_sched cf s (map (ainit cf) reqs) d)).
+Proof. exact C08c_ri_all_schedules_partial. Qed.
+Print Assumptions C08_ri_all_schedules_partial.
+
+Theorem C08_ri_every_prefix_partial : forall cf reqs s d k, RI d -> Forall (fun r => req_wf r = true) reqs ->
+  no_reshape_class_delete_race reqs -> RI (snd (a_exec cf reqs (firstn k s) d)).
+Proof. exact C08c_ri_every_prefix_partial. Qed.
+Print Assumptions C08_ri_every_prefix_partial.
+
+Theorem C08_ri_reachable_concurrent_partial : forall cf setup reqs s, reqs_wf setup ->
+  Forall (fun r => req_wf r = true) reqs -> no_reshape_class_delete_race reqs ->
+  RI (snd (a_exec cf reqs s (run cf db0 setup))).
+Proof. exact C08c_ri_reachable_partial. Qed.
+Print Assumptions C08_ri_reachable_concurrent_partial.
+
+(* without that hypothesis the statement is false for the code as it is (known finding) *)
+Theorem C08_ri_all_schedules_refuted : exists cf reqs s d, RI d /\ Forall (fun r => req_wf r = true) reqs /\
+  ~ RI (snd (a_run_sched cf s (map (ainit cf) reqs) d)).
+Proof. exact C08c_ri_all_schedules_refuted. Qed.
+Print Assumptions C08_ri_all_schedules_refuted.
+
+(* the race repaired by 09e8fa2, for every version, provider, generation, aggregate list, schedule and start state *)
+Theorem C08_aggregates_vs_provider_delete : forall cf v u g l s d, RI d ->
+  RI (snd (a_exec cf [AggsSet v u g l; RpDelete u] s d)).
+Proof. exact C08c_aggs_vs_provider_delete_all. Qed.
+Print Assumptions C08_aggregates_vs_provider_delete.
